@@ -279,40 +279,34 @@ theorem C03.addMatMat_entry {α : Type} [CommRing α] (allow : Bool) (alpha : α
     rw [← hdims.2]; exact mem_csrRow_col_lt ((Csr.wf_iff D).mp hDw) (by rw [← hdims.1]; exact hi) hk
   rw [rowVal_csrRow_eq_entry ((Csr.wf_iff B).mp hBw) hlt j]
 
-/-! ## specification side of the two kernels whose code deviates (KNOWN_FINDINGS c03-edge:F1 / F2) -/
+/-! ## the two kernels repaired after this check found them (formerly c03-edge:F1 / F2) -/
 
-/-- the documented scaled row norm `Σ_j scal_j·a_ij²` as a sum over the stored entries -/
+/-- `row_norm2sqr(row_norms, scal)` (CSR): the documented scaled row norm `Σ_j scal_j·a_ij²`, as a sum over the stored
+    entries of the row (entries that are not stored contribute 0) -/
 theorem C03.rowNorm2SqrScaled_spec {α : Type} [CommRing α] (A : Csr α) (scal : Array α) :
-    csrRowNorm2SqrScaledSpec A scal =
+    csrRowNorm2SqrScaled A scal =
       (List.range A.rows).map fun i => ((csrRow A i).map fun p => scal.getD p.1 0 * (p.2 * p.2)).sum := by
-  unfold csrRowNorm2SqrScaledSpec
-  exact List.map_congr_left (fun i _ => by rw [foldl_add_eq_sum (fun (p : Nat × α) => scal.getD p.1 0 * (p.2 * p.2)) (csrRow A i) 0, zero_add])
+  unfold csrRowNorm2SqrScaled
+  exact List.map_congr_left (fun i _ => by
+    rw [foldl_add_eq_sum (fun (p : Nat × α) => scal.getD p.1 0 * (p.2 * p.2)) (csrRow A i) 0, zero_add])
 
-/-- the code as it is (`scal[row]`) is not the documented formula: A = [[1 1],[0 0]], scal = (2, 3) gives 4, not 5
-    (the failing input of FINDINGS_C03.md F2, replayed on the real code by stream `edge`) -/
-theorem C03.rowNorm2SqrScaled_code_differs_from_spec :
-    csrRowNorm2SqrScaled ({ rows := 2, cols := 2, rowPtr := #[0, 2, 2], colInd := #[0, 1], val := #[1, 1] } : Csr Int)
-      #[2, 3] = [4, 0] ∧
-    csrRowNorm2SqrScaledSpec ({ rows := 2, cols := 2, rowPtr := #[0, 2, 2], colInd := #[0, 1], val := #[1, 1] } : Csr Int)
-      #[2, 3] = [5, 0] := by
-  decide
+/-- `row_norm2sqr` (BCSR): scalar row `i` of block row `row` = the sum of the squares of row `i` of every stored block -/
+theorem C03.bcsrRowNorm2Sqr_spec {α : Type} [CommRing α] (A : Bcsr α) :
+    bcsrRowNorm2Sqr A none = (List.range A.rows).flatMap fun row => (List.range A.bh).map fun i =>
+      ((bcsrRow A row).map fun p =>
+        ((List.range A.bw).map fun j => p.2.getD (i * A.bw + j) 0 * p.2.getD (i * A.bw + j) 0).sum).sum := by
+  unfold bcsrRowNorm2Sqr
+  simp only [foldl_add_eq_sum, zero_add]
 
-/-- both readings agree when the scaling vector is constant (one of the clean input classes of the generator) -/
-theorem C03.rowNorm2SqrScaled_const_agree {α : Type} [CommRing α] (A : Csr α) (scal : Array α) (c : α)
-    (hc : ∀ k, scal.getD k 0 = c) : csrRowNorm2SqrScaled A scal = csrRowNorm2SqrScaledSpec A scal := by
-  unfold csrRowNorm2SqrScaled csrRowNorm2SqrScaledSpec
-  simp only [hc]
-
-/-- `bcsr_generic_norm2` as coded takes the root after every block: on the block row (3 0 | 4 0 ; 0 0 | 0 0) it returns
-    `sqrt(sqrt 9 + 16)` where the specification (root of `row_norm2sqr`) is `sqrt 25` (FINDINGS_C03.md F1) -/
-theorem C03.bcsrRowNorm2_code_differs_from_spec (sqrt : Int → Int) :
-    bcsrRowNorm2 sqrt ({ bh := 2, bw := 2, rows := 1, cols := 2, rowPtr := #[0, 2], colInd := #[0, 1], val := #[3, 0, 0, 0, 4, 0, 0, 0] } : Bcsr Int) = [sqrt (sqrt 9 + 16), sqrt (sqrt 0 + 0)] ∧
-    bcsrRowNorm2Spec sqrt ({ bh := 2, bw := 2, rows := 1, cols := 2, rowPtr := #[0, 2], colInd := #[0, 1], val := #[3, 0, 0, 0, 4, 0, 0, 0] } : Bcsr Int) = [sqrt 25, sqrt 0] := by
-  refine ⟨?_, rfl⟩
-  have h : bcsrRowNorm2 sqrt ({ bh := 2, bw := 2, rows := 1, cols := 2, rowPtr := #[0, 2], colInd := #[0, 1], val := #[3, 0, 0, 0, 4, 0, 0, 0] } : Bcsr Int)
-      = [sqrt (sqrt 9 + 4 * 4 + 0 * 0), sqrt (sqrt 0 + 0 * 0 + 0 * 0)] := rfl
-  rw [h]
-  simp
+/-- `row_norm2` (BCSR) = the square root (the harness and the driver use the same `qsqrt`) of the row's sum of
+    squares, taken once per scalar row -/
+theorem C03.bcsrRowNorm2_spec {α : Type} [CommRing α] (sqrt : α → α) (A : Bcsr α) :
+    bcsrRowNorm2 sqrt A = (List.range A.rows).flatMap fun row => (List.range A.bh).map fun i =>
+      sqrt ((bcsrRow A row).map fun p =>
+        ((List.range A.bw).map fun j => p.2.getD (i * A.bw + j) 0 * p.2.getD (i * A.bw + j) 0).sum).sum := by
+  unfold bcsrRowNorm2
+  rw [C03.bcsrRowNorm2Sqr_spec]
+  simp [List.map_flatMap, List.map_map, Function.comp_def]
 
 /-! ## the hypotheses are satisfiable by non-trivial values -/
 
